@@ -22,7 +22,7 @@ func VerifC10_PendingExtensions() {
 	r0, r1, r2 := verifRid("r0"), verifRid("r1"), verifRid("r2")
 	zz.Assume(r0 != r1 && r0 != r2 && r1 != r2)
 	req := verifArbitraryRequest("req")
-	req.TransferId = uint64(tid)
+	zz.SetInt(&req.TransferId, uint64(tid))
 	ctx := context.Background()
 	f.t.gsReqRecdHook(p, verifReqWith(r0, req), &verifActions{})
 	f.t.gsRequestorCancelledListener(p, verifReq(r0))
